@@ -96,7 +96,9 @@ fn openssl_verdict(chain: &[Vec<u8>], t: i64, purpose: &str) -> Option<(bool, St
 	sb.add_cert(certs[0].clone()).ok()?;
 	let mut param = X509VerifyParam::new().ok()?;
 	param.set_time(t as _);
-	param.set_purpose(if purpose == "server" { X509PurposeId::SSL_SERVER } else { X509PurposeId::SSL_CLIENT }).ok()?;
+	// (the other purposes have rules of OpenSSL's own next to the extended key usage — S/MIME key
+	// usages, Netscape certificate types: webpki alone is asked about them)
+	param.set_purpose(match purpose { "server" => X509PurposeId::SSL_SERVER, "client" => X509PurposeId::SSL_CLIENT, _ => return None }).ok()?;
 	sb.set_param(&param).ok()?;
 	let store = sb.build();
 	let mut stack = Stack::new().ok()?;
@@ -123,9 +125,18 @@ fn webpki_verdict(chain: &[Vec<u8>], t: i64, purpose: &str) -> Option<(bool, Str
 		Err(e) => return Some((false, format!("{:?}", e))),
 	};
 	let now = UnixTime::since_unix_epoch(std::time::Duration::from_secs(t.max(0) as u64));
-	let usage = if purpose == "server" { webpki::KeyUsage::server_auth() } else { webpki::KeyUsage::client_auth() };
+	let usage = match purpose {
+		"server" => webpki::KeyUsage::server_auth(),
+		"client" => webpki::KeyUsage::client_auth(),
+		"code" => webpki::KeyUsage::required_if_present(&[0x2b, 6, 1, 5, 5, 7, 3, 3]),
+		"email" => webpki::KeyUsage::required_if_present(&[0x2b, 6, 1, 5, 5, 7, 3, 4]),
+		"timestamp" => webpki::KeyUsage::required_if_present(&[0x2b, 6, 1, 5, 5, 7, 3, 8]),
+		_ => webpki::KeyUsage::required_if_present(&[0x2b, 6, 1, 5, 5, 7, 3, 9]),
+	};
 	match ee.verify_for_usage(webpki::ALL_VERIFICATION_ALGS, &[anchor], &inters, now, usage, None, None) {
 		Ok(_) => Some((true, "ok".into())),
+		// (this webpki verifies with ring: a P-521 signature is no answer, not a rejection)
+		Err(e) if format!("{:?}", e).contains("UnsupportedSignatureAlgorithm") => None,
 		Err(e) => Some((false, format!("{:?}", e))),
 	}
 }
@@ -354,6 +365,20 @@ pub fn run(ctx: &mut Ctx) -> Report {
 				cases.push(c);
 			}
 		}
+		// ... every standard purpose against the sets that name one of them, the leaf issued
+		// directly and from a parsed request (the purposes then pass through the request reader)
+		for eku in [vec![CodeSigning], vec![EmailProtection], vec![CodeSigning, EmailProtection], vec![TimeStamping], vec![OcspSigning], vec![ServerAuth, CodeSigning], vec![ClientAuth, EmailProtection], vec![ServerAuth], vec![ClientAuth]] {
+			for purpose in ["server", "client", "code", "email", "timestamp", "ocsp"] {
+				for via in [false, true] {
+					let mut c = b.clone();
+					c.tag = format!("eku:{:?}:{}:{}", eku, purpose, if via { "leaf-from-request" } else { "leaf-signed-by" });
+					c.leaf.eku = eku.clone();
+					c.purpose = purpose;
+					c.via_request = via;
+					cases.push(c);
+				}
+			}
+		}
 		// D5: CA key usage
 		use KeyUsagePurpose::*;
 		for ku in [vec![], vec![KeyCertSign], vec![KeyCertSign, CrlSign], vec![DigitalSignature], vec![CrlSign], vec![DigitalSignature, KeyCertSign], vec![DigitalSignature, KeyEncipherment],
@@ -397,6 +422,24 @@ pub fn run(ctx: &mut Ctx) -> Report {
 			run_chain(&mut s, &keys, c);
 		}
 	}
+	// the valid baseline with CA keys of every algorithm of the build, as they come out of each
+	// key-loading entry point (a CA key is usually a loaded one): what such a key signs is what
+	// its certificate says it signs with, or no validator follows the chain
+	for alg in crate::keys::build_algs() {
+		let name = alg_name(alg).to_string();
+		let pkcs8 = if name.starts_with("rsa") { s.ctx.rsa_fixture.clone() } else { s.ctx.key(&name).serialize_der() };
+		for (loader, res) in crate::props::c01::loaded_keys(alg, &pkcs8) {
+			let Ok(k) = res else { continue };
+			let k = Arc::new(k);
+			for depth2 in [false, true] {
+				let mut c = base_case(depth2);
+				c.tag = format!("ca-key:{}:{}:depth{}", name, loader, if depth2 { 2 } else { 1 });
+				let ks: [Arc<KeyPair>; 3] = if depth2 { [keys[0].clone(), k.clone(), keys[2].clone()] } else { [k.clone(), keys[1].clone(), keys[2].clone()] };
+				run_chain(&mut s, &ks, &c);
+			}
+		}
+	}
+	s.rep.exhaustive.push("the valid baseline signed by CA keys of every algorithm of the build loaded through each of the nine entry points (root at depth 1, intermediate at depth 2)".into());
 	// the pair the command-line tool writes, for each combination of its two purpose flags: the
 	// end-entity certificate serves exactly the purposes asked for (no flag: no restriction)
 	{
